@@ -160,7 +160,9 @@ class C18(engine.Property):
         args = [rng.choice(ARG_POOL) for _ in range(rng.randint(0, 2))]
         kwargs = []
         if rng.random() < cfg["p_kwargs"]:
-            kwargs = [[rng.choice(["x", "y"]), rng.choice(ARG_POOL)]]
+            # any keyword name is the caller's to choose -- including ones a
+            # library might use for its own parameters
+            kwargs = [[rng.choice(["x", "y", "key", "mapping", "factory", "instance", "name", "value"]), rng.choice(ARG_POOL)]]
         op = {
             "op": "construct",
             "cls": rng.choice(cfg["classes"]),
@@ -339,7 +341,13 @@ class C18(engine.Property):
 
     def _still_empty(self, st, op, cls):
         """After a failed construction the next one must construct afresh."""
-        obj = st.classes[cls]("probe")
+        try:
+            obj = st.classes[cls]("probe")
+        except Exception as exc:  # pylint: disable=broad-except
+            return engine.viol(
+                "C18/construction-raises-after-a-failed-construction",
+                {"op": op, "exc": type(exc).__name__},
+            )
         ok = obj.init_count == 1 and obj.init_args == (("probe",), {}) and obj.token not in st.tok2lab
         # keep the model in step with what this observation did
         lab = "probe:" + op["new"]
